@@ -142,6 +142,23 @@ Theorem C06_bt_spec : forall (enum : list N -> list N -> list mapping) (strict :
 Proof. exact bt_spec_unlimited. Qed.
 Print Assumptions C06_bt_spec.
 
+(** the instance the default configuration meets on mixtures (strict_cc_count = True, the
+    pattern has fewer components than the host, e.g. a connected pattern in a host of
+    several molecules): comp is [] by the documented parameter, hence bt is the exhaustive
+    result, i.e. exactly the monomorphisms *)
+Theorem C06_bt_strict_fallback : forall (enum : list N -> list N -> list mapping) (H P : graph),
+  vf2_contract enum H P (node_ids H) (node_ids P) ->
+  0 < length (comps P) -> length (comps P) < length (comps H) ->
+  exists T0 : N, forall T : N, (T0 <= T)%N ->
+  let R := find enum (Cfg 2 0 T true false) H P in
+  find enum (Cfg 1 0 T true false) H P = [] /\
+  R = find enum (Cfg 0 0 T true false) H P /\
+  (forall m, In m R -> is_mono H P m) /\
+  (forall m, is_mono H P m -> exists m', In m' R /\ Permutation m m') /\
+  NoDupA (@Permutation (N * N)) R.
+Proof. exact bt_strict_fallback. Qed.
+Print Assumptions C06_bt_strict_fallback.
+
 (** ** 4. Result limits *)
 (** exhaustive strategy, every [max_results] and [threshold]: the prefix of length
     min(max_results, #matches) of the unlimited listing, or [] when that length exceeds
